@@ -90,7 +90,7 @@ def cases(ctx):
     # random histories with many version reports
     from .. import histories
 
-    for i in range(ctx.pick(300, 12000) // ctx.shard_count):
+    for i in range(ctx.pick(300, 100000) // ctx.shard_count):
         version = [None, *VERSIONS][i % 6]
         gen = histories.HistoryGen(rng, version)
         yield {"version": version, "steps": gen.history(rng.choice([10, 40, 120]), version_reports=0.2)}
